@@ -12,7 +12,7 @@ def ep(transport, uniq):
     return e % uniq if "%s" in e else e
 
 
-def run_net(chk, scripts, label, procs=6):
+def run_net(chk, scripts, label, procs=6, monitor="TraceListener"):
     """returns list of (scen, code, line) over the concatenated trace"""
     wd = chk.wd
     parts = [scripts[i::procs] for i in range(procs)]
@@ -42,9 +42,9 @@ def run_net(chk, scripts, label, procs=6):
         r["i"] = i + 1
     trace = os.path.join(wd, label + ".trace")
     vlib.write_ndjson(trace, rows)
-    viols, consumed, total, info = vlib.tlc_trace("TraceListener", "TraceListener.cfg", trace, wd, timeout=1800)
+    viols, consumed, total, info = vlib.tlc_trace(monitor, monitor + ".cfg", trace, wd, timeout=1800)
     chk.traces += len(scripts); chk.states += info["distinct"]; chk.transitions += info["generated"]
-    chk.notes.setdefault("trace_validation", []).append({"family": label, "scenarios": len(scripts), "events": total, "monitor": "TraceListener", "driver_s": round(time.time() - t0, 1), "processes": len(parts)})
+    chk.notes.setdefault("trace_validation", []).append({"family": label, "scenarios": len(scripts), "events": total, "monitor": monitor, "driver_s": round(time.time() - t0, 1), "processes": len(parts)})
     return viols
 
 
@@ -77,3 +77,23 @@ def probes(names, ipcs, settle=False, bound=None, silent=False):
         if n in ipcs:
             ops.append({"op": "ipc_exists", "name": n, "settle": settle})
     return ops
+
+
+def race_scripts(rng, thorough, what=("twins", "rejoin")):
+    """Registry.tla on the real multi-threaded runtime over loopback TCP (uncontrolled interleavings, sampled): connections that share
+    an identity finish their handshakes at the same instant; a peer of a round-robin sender comes back under its identity at the
+    moment the socket notices the end of its old connection"""
+    out, scen = [], 950000
+    if "twins" in what:
+        for t in ("ROUTER", "PULL", "DEALER", "REP", "XPUB"):
+            for rep in range(3 if thorough else 1):
+                scen += 1
+                out.append({"scen": scen, "sock": t, "tag": "twins", "ops": [{"op": "bind", "name": "a", "ep": "tcp://127.0.0.1:0"},
+                                                                              {"op": "mt_twins", "name": "a", "rounds": 12 if thorough else 5, "groups": 8}]})
+    if "rejoin" in what:
+        for t, reps in (("DEALER", 2), ("PUSH", 1)):
+            for rep in range(reps * (3 if thorough else 1)):
+                scen += 1
+                out.append({"scen": scen, "sock": t, "tag": "rejoin", "ops": [{"op": "bind", "name": "a", "ep": "tcp://127.0.0.1:0"},
+                                                                               {"op": "mt_rejoin", "name": "a", "rounds": 2000 if thorough else 600, "seed": rng.randrange(1 << 30)}]})
+    return out
